@@ -179,7 +179,7 @@ def run_tlc(module, cfg_text, *, extra_files=None, workers=1, simulate=None, dep
         m2 = re.search(r"Error: Action property (\S+) is violated", res.output)
         if m2:
             res.violation = m2.group(1)
-        if "Error: Temporal properties were violated" in res.output:
+        if "Error: Temporal properties were violated" in res.output or re.search(r"Error: Temporal property \S+ was violated", res.output):
             res.violation = "temporal"
         if re.search(r"Error: Postcondition \S+ .*is false", res.output) and not res.violation:
             res.violation = "postcondition"
